@@ -245,34 +245,41 @@ Qed.
 (* ------------------------------------------------------------------ *)
 (* A2. T is unchanged                                                   *)
 
+(* any schema u other than the receiving one reads as before (T is the case u = t) *)
+Lemma add_schema_schema_unchanged : forall P s t root h h' u,
+  as_copies P = true -> add_schema_h P s t root h = Some h' ->
+  s <> u -> (u < List.length h)%nat -> rules_inside h u ->
+  schema_rules h' u = schema_rules h u.
+Proof.
+  intros P s t root h h' u HP Hadd Hne Hu Hin.
+  rewrite !schema_rules_look.
+  rewrite (add_schema_frame _ _ _ _ _ _ HP Hadd u Hu (not_eq_sym Hne)).
+  destruct (nth_error h u) as [ [ ? ? | urs ] | ] eqn:Eu; try reflexivity.
+  f_equal. apply map_ext_in. intros r Hr.
+  apply (add_schema_look _ _ _ _ _ _ HP Hadd). exact (Hin urs Eu r Hr).
+Qed.
+
 Theorem add_schema_T_unchanged : forall P s t root h h',
   as_copies P = true -> add_schema_h P s t root h = Some h' ->
   s <> t -> (t < List.length h)%nat -> rules_inside h t ->
   schema_rules h' t = schema_rules h t.
-Proof.
-  intros P s t root h h' HP Hadd Hne Ht Hin.
-  rewrite !schema_rules_look.
-  rewrite (add_schema_frame _ _ _ _ _ _ HP Hadd t Ht (not_eq_sym Hne)).
-  destruct (nth_error h t) as [ [ ? ? | trs ] | ] eqn:Et; try reflexivity.
-  f_equal. apply map_ext_in. intros r Hr.
-  apply (add_schema_look _ _ _ _ _ _ HP Hadd). exact (Hin trs eq_refl r Hr).
-Qed.
+Proof. intros P s t root h h'. apply add_schema_schema_unchanged. Qed.
 
-(* under the heap invariant: any schema location other than s, inside the heap or not *)
-Theorem add_schema_other_unchanged : forall P s t root h h',
+(* under the heap invariant: any location u other than s, inside the heap or not *)
+Theorem add_schema_other_unchanged : forall P s t root h h' u,
   as_copies P = true -> add_schema_h P s t root h = Some h' ->
-  wf_heap h -> s <> t -> schema_rules h' t = schema_rules h t.
+  wf_heap h -> s <> u -> schema_rules h' u = schema_rules h u.
 Proof.
-  intros P s t root h h' HP Hadd Hwf Hne.
-  destruct (Nat.lt_ge_cases t (List.length h)) as [Ht | Ht].
-  - apply (add_schema_T_unchanged _ _ _ _ _ _ HP Hadd Hne Ht). apply wf_rules_inside. exact Hwf.
-  - (* t lies outside the old heap: it is nothing before, and nothing or a fresh rule object after *)
+  intros P s t root h h' u HP Hadd Hwf Hne.
+  destruct (Nat.lt_ge_cases u (List.length h)) as [Hu | Hu].
+  - apply (add_schema_schema_unchanged _ _ _ _ _ _ _ HP Hadd Hne Hu). apply wf_rules_inside. exact Hwf.
+  - (* u lies outside the old heap: it is nothing before, and nothing or a fresh rule object after *)
     rewrite !schema_rules_look.
     destruct (add_schema_copy_inv _ _ _ _ _ _ HP Hadd) as [srs [trs [Es [Et ->]]]].
     rewrite nth_error_set_nth_neq by exact Hne.
-    rewrite (proj2 (nth_error_None h t) Ht).
-    rewrite nth_error_app2 by exact Ht.
-    destruct (nth_error (fresh_objs root h trs) (t - List.length h)) as [ o | ] eqn:Eo; [ | reflexivity ].
+    rewrite (proj2 (nth_error_None h u) Hu).
+    rewrite nth_error_app2 by exact Hu.
+    destruct (nth_error (fresh_objs root h trs) (u - List.length h)) as [ o | ] eqn:Eo; [ | reflexivity ].
     apply nth_error_In in Eo. unfold fresh_objs in Eo. apply in_map_iff in Eo.
     destruct Eo as [r [Er Hr]]. destruct (Hwf _ _ Et r Hr) as [p [b E]]. rewrite E in Er. subst o.
     reflexivity.
@@ -415,7 +422,7 @@ Proof.
   { intros op Hop. apply Hops. right. exact Hop. }
   destruct (add_schema_h P s t' root h) as [ h' | ] eqn:Hadd.
   - rewrite (IH h' t HP (add_schema_wf _ _ _ _ _ _ HP Hadd Hwf) Hops').
-    exact (add_schema_other_unchanged _ _ _ _ _ _ HP Hadd Hwf Hne).
+    exact (add_schema_other_unchanged _ _ _ _ _ _ _ HP Hadd Hwf Hne).
   - exact (IH h t HP Hwf Hops').
 Qed.
 
@@ -527,3 +534,199 @@ Example ex_history_values :
   schema_rules (run_adds copying ex_ops ex_heap2) 3 = Some [([8; 9; 7], 1)]%nat /\
   schema_rules (run_adds copying ex_ops ex_heap2) 1 = Some [([7], 1)]%nat.
 Proof. vm_compute. repeat split. Qed.
+
+(* ================================================================== *)
+(* PART B — re-rooting on the specification of path resolution          *)
+(* ================================================================== *)
+
+Local Open Scope Z_scope.
+
+Lemma flat_map_flat_map {A B C} (f : B -> list C) (g : A -> list B) : forall l,
+  flat_map f (flat_map g l) = flat_map (fun x => flat_map f (g x)) l.
+Proof.
+  induction l as [ | x l IH ]; cbn; [ reflexivity | ].
+  rewrite flat_map_app, IH. reflexivity.
+Qed.
+
+(* B1. resolving root ++ path = resolving path from every node the root selects *)
+Theorem C18_walk_app : forall R P pre d,
+  walk (R ++ P) pre d = flat_map (fun cn => walk P (fst cn) (snd cn)) (walk R pre d).
+Proof.
+  induction R as [ | p r IH ]; intros P pre d.
+  - cbn. rewrite app_nil_r. reflexivity.
+  - cbn [app walk]. rewrite flat_map_flat_map. apply flat_map_ext. intros kv. apply IH.
+Qed.
+
+(* B2. ... and the reported concrete paths are the root's path followed by the path inside *)
+Corollary C18_selection : forall R P d,
+  walk (R ++ P) [] d
+  = flat_map (fun cn => map (fun pv => (fst cn ++ fst pv, snd pv)) (walk P [] (snd cn))) (walk R [] d).
+Proof.
+  intros R P d. rewrite C18_walk_app. apply flat_map_ext. intros cn.
+  rewrite walk_prefix. reflexivity.
+Qed.
+
+(* ---- B3. verdicts ---- *)
+
+Lemma q_is_null_eq' n : q_is_null n = true -> n = QNull.
+Proof. destruct n; cbn; try discriminate; reflexivity. Qed.
+
+Lemma qleaves_qnorm' t : qleaves (qnorm t) = qleaves t.
+Proof.
+  induction t as [c q| |o a IHa b IHb]; cbn [qnorm]; try reflexivity.
+  cbn [qleaves]. rewrite <- IHa, <- IHb.
+  destruct (q_is_null (qnorm b)) eqn:Eb.
+  - apply q_is_null_eq' in Eb. rewrite Eb. cbn [qleaves]. rewrite app_nil_r. reflexivity.
+  - destruct (q_is_null (qnorm a)) eqn:Ea.
+    + apply q_is_null_eq' in Ea. rewrite Ea. reflexivity.
+    + reflexivity.
+Qed.
+
+Lemma value_only_qnorm t : value_only (qnorm t) = value_only t.
+Proof. unfold value_only. rewrite qleaves_qnorm'. reflexivity. Qed.
+
+(* a value-kind tree does not look at the key / index of an item *)
+Lemma sat_tree_value_only : forall n i j v,
+  value_only n = true -> sat_tree n (i, v) = sat_tree n (j, v).
+Proof.
+  induction n as [c q| |o a IHa b IHb]; intros i j v Hvo; cbn [sat_tree].
+  - unfold value_only in Hvo. cbn [qleaves forallb fst] in Hvo. rewrite andb_true_r in Hvo.
+    unfold sat_item. destruct (scls_kind c); try discriminate Hvo. reflexivity.
+  - reflexivity.
+  - unfold value_only in Hvo. cbn [qleaves] in Hvo. rewrite forallb_app in Hvo.
+    apply andb_true_iff in Hvo. destruct Hvo as [Ha Hb].
+    rewrite (IHa i j v Ha), (IHb i j v Hb). reflexivity.
+Qed.
+
+(* is the selected node fine for the (normalised) condition tree? *)
+Definition node_ok (t : qtree) (pv : list pyval * pyval) : bool := sat_tree (qnorm t) (VNone, snd pv).
+
+Lemma results_value_only t : value_only t = true -> forall sel i,
+  map (sat_tree (qnorm t)) (combine (zidx i (List.length sel)) (map snd sel)) = map (node_ok t) sel.
+Proof.
+  intros Hvo. induction sel as [ | [cp v] sel IH ]; intros i; [ reflexivity | ].
+  cbn [List.length zidx map combine snd]. rewrite IH. f_equal.
+  unfold node_ok. cbn [snd]. apply sat_tree_value_only. rewrite value_only_qnorm. exact Hvo.
+Qed.
+
+(* the failure list of spec_verdict *)
+Definition fails_go :=
+  fix go (i : Z) (sel : list (list pyval * pyval)) (r : list bool) : list pyval :=
+    match sel, r with
+    | (cp, v) :: s', b :: r' =>
+        if b then go (i + 1) s' r'
+        else VTuple [VInt i; v; VTuple cp; VBool true] :: go (i + 1) s' r'
+    | _, _ => []
+    end.
+
+Lemma spec_verdict_cons x sel t :
+  spec_verdict (x :: sel) t =
+  let result := map (sat_tree (qnorm t))
+                    (combine (zidx 0 (List.length (x :: sel))) (map snd (x :: sel))) in
+  let fails := fails_go 0 (x :: sel) result in
+  VTuple [VBool (forallb (fun b => b) result); VBool true; VInt (Z.of_nat (List.length fails)); VList fails].
+Proof. reflexivity. Qed.
+
+Lemma fails_go_length (f : list pyval * pyval -> bool) : forall sel i,
+  List.length (fails_go i sel (map f sel)) = List.length (filter (fun pv => negb (f pv)) sel).
+Proof.
+  induction sel as [ | [cp v] sel IH ]; intros i; [ reflexivity | ].
+  cbn [map fails_go filter]. destruct (f (cp, v)); cbn [negb List.length]; rewrite IH; reflexivity.
+Qed.
+
+Lemma forallb_id_map {A} (f : A -> bool) l : forallb (fun b => b) (map f l) = forallb f l.
+Proof. induction l as [ | x l IH ]; cbn; [ reflexivity | rewrite IH; reflexivity ]. Qed.
+
+(* a rule with a value-kind condition is valid iff every selected node is fine *)
+Lemma verdict_valid_spec t sel : value_only t = true ->
+  verdict_valid (spec_verdict sel t) = forallb (node_ok t) sel.
+Proof.
+  intros Hvo. destruct sel as [ | x sel ]; [ reflexivity | ].
+  rewrite spec_verdict_cons. cbv zeta. unfold verdict_valid.
+  rewrite (results_value_only t Hvo), forallb_id_map. reflexivity.
+Qed.
+
+(* ... and its number of failures is the number of selected nodes that are not *)
+Lemma verdict_nfail_spec t sel : value_only t = true ->
+  verdict_nfail (spec_verdict sel t) = Z.of_nat (List.length (filter (fun pv => negb (node_ok t pv)) sel)).
+Proof.
+  intros Hvo. destruct sel as [ | x sel ]; [ reflexivity | ].
+  rewrite spec_verdict_cons. cbv zeta. unfold verdict_nfail.
+  rewrite (results_value_only t Hvo), fails_go_length. reflexivity.
+Qed.
+
+Lemma forallb_flat_map {A B} (p : B -> bool) (f : A -> list B) : forall l,
+  forallb p (flat_map f l) = forallb (fun x => forallb p (f x)) l.
+Proof.
+  induction l as [ | x l IH ]; cbn; [ reflexivity | ]. rewrite forallb_app, IH. reflexivity.
+Qed.
+
+Lemma filter_flat_map {A B} (p : B -> bool) (f : A -> list B) : forall l,
+  filter p (flat_map f l) = flat_map (fun x => filter p (f x)) l.
+Proof.
+  induction l as [ | x l IH ]; cbn; [ reflexivity | ]. rewrite filter_app, IH. reflexivity.
+Qed.
+
+Lemma forallb_ext' {A} (f g : A -> bool) : (forall x, f x = g x) -> forall l, forallb f l = forallb g l.
+Proof. intros H. induction l as [ | x l IH ]; cbn; [ reflexivity | rewrite H, IH; reflexivity ]. Qed.
+
+Lemma forallb_map' {A B} (f : A -> B) (p : B -> bool) : forall l,
+  forallb p (map f l) = forallb (fun x => p (f x)) l.
+Proof. induction l as [ | x l IH ]; cbn; [ reflexivity | rewrite IH; reflexivity ]. Qed.
+
+Lemma node_ok_pref t pre pv : node_ok t (pref pre pv) = node_ok t pv.
+Proof. reflexivity. Qed.
+
+(* the re-rooted rule is valid on d iff T's rule is valid on every node that R selects *)
+Theorem C18_valid_iff : forall R P d t, value_only t = true ->
+  verdict_valid (spec_verdict (walk (R ++ P) [] d) t)
+  = forallb (fun cn => verdict_valid (spec_verdict (walk P [] (snd cn)) t)) (walk R [] d).
+Proof.
+  intros R P d t Hvo.
+  rewrite (verdict_valid_spec _ _ Hvo), C18_walk_app, forallb_flat_map.
+  apply forallb_ext'. intros cn.
+  rewrite (verdict_valid_spec _ _ Hvo), walk_prefix, forallb_map'. reflexivity.
+Qed.
+
+(* ... and its failures are those of T's rule, summed over the nodes that R selects *)
+Theorem C18_nfail_sum : forall R P d t, value_only t = true ->
+  verdict_nfail (spec_verdict (walk (R ++ P) [] d) t)
+  = fold_right (fun cn n => verdict_nfail (spec_verdict (walk P [] (snd cn)) t) + n) 0 (walk R [] d).
+Proof.
+  intros R P d t Hvo.
+  rewrite (verdict_nfail_spec _ _ Hvo), C18_walk_app, filter_flat_map.
+  induction (walk R [] d) as [ | cn l IH ]; [ reflexivity | ].
+  cbn [flat_map fold_right]. rewrite app_length, Nat2Z.inj_add, IH. f_equal.
+  rewrite (verdict_nfail_spec _ _ Hvo), walk_prefix.
+  rewrite filter_map_comm, map_length. reflexivity.
+Qed.
+
+(* the re-rooted rule counts as tested iff T's rule is tested on some node that R selects *)
+Theorem C18_tested : forall R P d t,
+  verdict_tested (spec_verdict (walk (R ++ P) [] d) t)
+  = existsb (fun cn => verdict_tested (spec_verdict (walk P [] (snd cn)) t)) (walk R [] d).
+Proof.
+  intros R P d t. rewrite C18_walk_app.
+  induction (walk R [] d) as [ | cn l IH ]; [ reflexivity | ].
+  cbn [flat_map existsb]. rewrite <- IH. rewrite (walk_prefix P (fst cn)).
+  destruct (walk P [] (snd cn)) as [ | x xs ]; [ reflexivity | ].
+  cbn [map app]. rewrite !spec_verdict_cons. reflexivity.
+Qed.
+
+Print Assumptions add_schema_frame.
+Print Assumptions add_schema_length.
+Print Assumptions add_schema_T_unchanged.
+Print Assumptions add_schema_other_unchanged.
+Print Assumptions add_schema_S_rules.
+Print Assumptions add_schema_wf.
+Print Assumptions run_adds_wf.
+Print Assumptions add_history_T_unchanged.
+Print Assumptions add_history_rules_frame.
+Print Assumptions add_schema_rebinding_refuted.
+Print Assumptions add_schema_rebinding_frame_refuted.
+Print Assumptions C18_walk_app.
+Print Assumptions C18_selection.
+Print Assumptions sat_tree_value_only.
+Print Assumptions C18_valid_iff.
+Print Assumptions C18_nfail_sum.
+Print Assumptions C18_tested.
